@@ -21,7 +21,7 @@ import (
 )
 
 var c04mix = []weighted{
-	{"pub", 40}, {"sleep", 16}, {"crash", 4}, {"crashfs", 3}, {"restart", 7}, {"cut", 8}, {"heal", 6}, {"stall", 3}, {"stalll", 2},
+	{"pub", 40}, {"sleep", 16}, {"crash", 4}, {"crashfs", 3}, {"restart", 7}, {"cut", 8}, {"heal", 6}, {"stall", 3}, {"stalll", 2}, {"lagrepl", 3},
 }
 
 func genC04(r *simrt.Rand, tier string, idx int) *hx.Program {
